@@ -69,7 +69,7 @@ def build(rows, how, **kw):
         return ra.RaggedArray([np.array(r) for r in rows], **kw)
     flat = np.concatenate(rows)
     if how == "flat_nd":
-        return ra.RaggedArray(flat, lengths=np.array(lengths, dtype=int), **kw)
+        return _with_callers_lengths(flat, lengths, kw)
     if how == "flat_pyint":
         return ra.RaggedArray(flat, lengths=[int(x) for x in lengths], **kw)
     if how == "flat_npint":
@@ -77,8 +77,18 @@ def build(rows, how, **kw):
     if how == "flat_F":
         # the flat buffer in a non-C memory order (an (N, 3) block obtained by transposing a (3, N) table): the same
         # values at the same indices, other strides
-        return ra.RaggedArray(np.asfortranarray(flat), lengths=np.array(lengths, dtype=int), **kw)
+        return _with_callers_lengths(np.asfortranarray(flat), lengths, kw)
     raise ValueError(how)
+
+
+def _with_callers_lengths(flat, lengths, kw):
+    """The lengths arrive in an ndarray that stays the caller's: it is reused for other numbers as soon as the
+    constructor has returned (a loader that fills one lengths buffer per dataset); the array built keeps its rows."""
+    from enspara import ra
+    L = np.array(lengths, dtype=int)
+    a = ra.RaggedArray(flat, lengths=L, **kw)
+    L[...] = L[::-1] + 1
+    return a
 
 
 def build_mask(mask_rows, how="arrays"):
